@@ -61,7 +61,7 @@ theorem C02_ok_iff (c : Ctx N) : (Spec.C02 c).ok = true ↔ C02_Holds c := by
 variable [LT N] [DecidableRel (α := N) (· < ·)]
 
 /-- **C02 (readable form).** -/
-theorem C02_data_stall_exact' (p : Proc N) (prog : List (Instr N)) (tbl : List (Util N)) (stalled : Bool)
+theorem C02_data_stall_exact_readable (p : Proc N) (prog : List (Instr N)) (tbl : List (Util N)) (stalled : Bool)
     (hwf : wfProc p = true) (hp : ProgOK prog) (h : Diagram p prog tbl stalled) :
     C02_Holds (ctx p prog tbl stalled) := by
   intro i t u l hi hpos
@@ -111,6 +111,87 @@ exactly when an older conflicting access is outstanding (else `U`), and never `D
 theorem C02_data_stall_exact (p : Proc N) (prog : List (Instr N)) (tbl : List (Util N)) (stalled : Bool)
     (hwf : wfProc p = true) (hp : ProgOK prog) (h : Diagram p prog tbl stalled) :
     (Spec.C02 (ctx p prog tbl stalled)).ok = true :=
-  (C02_ok_iff _).2 (C02_data_stall_exact' p prog tbl stalled hwf hp h)
+  (C02_ok_iff _).2 (C02_data_stall_exact_readable p prog tbl stalled hwf hp h)
+
+/-- **No fault** (exported from `Lemmas/Hazards`): `can_access` is never asked on an emptied queue and no deferred
+`dequeue` raises — the only fault outcome the model can produce is running out of fuel. -/
+theorem C02_no_queue_fault (p : Proc N) (prog : List (Instr N)) (hwf : wfProc p = true) (hp : ProgOK prog) :
+    simulate p prog ≠ .fault .queueEmpty ∧ simulate p prog ≠ .fault .badDequeue :=
+  no_queue_fault hwf hp
+
+/-! ## Non-vacuity
+
+Same processor and program as in `Props/C01.lean`: capability `7` passes the read-locking input port `0` and the
+write-locking output port `1` (both width 1); capability `8` is served by the in-out port `2` (width 2, both locks).
+
+    I0: R1 := f(R2, R3)   cap 7
+    I1: R4 := f(R1)       cap 8     RAW on R1 with I0
+    I2: R2 := f(R5)       cap 8     WAR on R2 with I0
+    I3: R4 := f(R6)       cap 7     WAW on R4 with I1
+    I4: R7 := f(R1, R7)   cap 8     reads its own destination; RAW on R1 with I0 -/
+namespace C02Example
+
+def rdU : UnitM Nat := ⟨0, 1, [7], true, false, []⟩
+def wrU : UnitM Nat := ⟨1, 1, [7], false, true, []⟩
+def bothU : UnitM Nat := ⟨2, 2, [8], true, true, []⟩
+def proc : Proc Nat := { inPorts := [rdU], outPorts := [⟨wrU, [0]⟩], inOut := [bothU], internal := [] }
+def prog : List (Instr Nat) :=
+  [⟨[2, 3], 1, 7⟩, ⟨[1], 4, 8⟩, ⟨[5], 2, 8⟩, ⟨[6], 4, 7⟩, ⟨[1, 7], 7, 8⟩]
+
+/-- the diagram: unit ↦ hosted instructions, cycle by cycle -/
+def table : List (Util Nat) :=
+  [ [(2, [⟨1, .D⟩, ⟨2, .D⟩]), (1, []), (0, [⟨0, .U⟩])],
+    [(2, [⟨1, .D⟩, ⟨2, .U⟩]), (1, [⟨0, .U⟩]), (0, [⟨3, .U⟩])],
+    [(2, [⟨1, .U⟩, ⟨4, .U⟩]), (1, [⟨3, .D⟩]), (0, [])],
+    [(2, []), (1, [⟨3, .U⟩]), (0, [])] ]
+
+example : wfProc proc = true := by decide
+example : progOK prog = true := by decide
+
+def isDoneWith (o : Outcome Nat) (t : List (Util Nat)) : Bool :=
+  match o with
+  | .done t' => decide (t' = t)
+  | _ => false
+
+theorem sim_done : isDoneWith (simulate proc prog) table = true := by decide
+
+theorem sim_eq : simulate proc prog = .done table := by
+  have h := sim_done
+  unfold isDoneWith at h
+  split at h
+  · next t' e => rw [e]; congr 1; exact of_decide_eq_true h
+  · cases h
+
+/-- the hypotheses of `C02_data_stall_exact` are satisfiable, and the theorem applies to the diagram -/
+example : Diagram proc prog table false ∧ (Spec.C02 (ctx proc prog table false)).ok = true :=
+  ⟨Or.inl ⟨rfl, sim_eq⟩,
+   C02_data_stall_exact proc prog table false (by decide) ((progOK_iff prog).1 (by decide)) (Or.inl ⟨rfl, sim_eq⟩)⟩
+
+-- the checker agrees by evaluation
+example : (Spec.C02 (ctx proc prog table false)).ok = true := by decide
+-- cycle 0: I1 (RAW on R1) and I2 (WAR on R2: I0 reads R2 in this very cycle, not before it) must wait in unit 2
+example : mustWait (ctx proc prog table false) 1 0 bothU = true ∧
+    mustWait (ctx proc prog table false) 2 0 bothU = true := by decide
+-- cycle 1: I0's read is done, I2 goes; I1 still waits for I0's write, performed in this cycle
+example : mustWait (ctx proc prog table false) 2 1 bothU = false ∧
+    mustWait (ctx proc prog table false) 1 1 bothU = true := by decide
+-- cycle 2: I1 goes; the self-dependent I4 does not wait on itself (read and write of R7 granted together);
+-- I3 (WAW on R4 with I1, whose write is performed in this cycle) waits in the write-locking unit 1
+example : mustWait (ctx proc prog table false) 1 2 bothU = false ∧
+    mustWait (ctx proc prog table false) 4 2 bothU = false ∧
+    mustWait (ctx proc prog table false) 3 2 wrU = true := by decide
+-- cycle 3: I3 goes
+example : mustWait (ctx proc prog table false) 3 3 wrU = false := by decide
+-- a diagram that shows I1 unstalled too early (cycle 1) is rejected: a missing stall …
+example : (Spec.C02 (ctx proc prog
+    [ [(2, [⟨1, .D⟩]), (0, [⟨0, .U⟩])], [(2, [⟨1, .U⟩]), (1, [⟨0, .U⟩])] ] false)).ok = false := by decide
+-- … and so is a spurious stall (I2 shown `D` in cycle 1 although I0 has read R2 in cycle 0)
+example : (Spec.C02 (ctx proc prog
+    [ [(2, [⟨1, .D⟩, ⟨2, .D⟩]), (0, [⟨0, .U⟩])], [(2, [⟨1, .D⟩, ⟨2, .D⟩]), (1, [⟨0, .U⟩])] ] false)).ok = false := by
+  decide
+-- defect D1 (self-dependent instruction alone in a unit with both locks) does not dead-lock the repaired model
+example : isDoneWith (simulate proc [⟨[1, 2], 1, 8⟩]) [ [(2, [⟨0, .U⟩]), (1, [])] ] = true := by decide
+
+end C02Example
 
 end ProcSim
